@@ -6,7 +6,7 @@
 # Development aid (the registered checks do the same inside ensure_build); nothing is applied to /repo or /verif.
 set -u
 export GOFLAGS=-mod=mod GOPROXY=off
-ids="$@"; [ -z "$ids" ] && ids=$(ls /verif/seeded)
+ids="$@"; [ -z "$ids" ] && ids=$(cd /verif/seeded && ls -d */ | tr -d /)
 W=$(mktemp -d /tmp/sobl-XXXXXX)
 trap 'for d in $W/wt-*; do [ -d "$d" ] && git -C /repo worktree remove --force "$d" >/dev/null 2>&1; done; rm -rf $W' EXIT
 (cd /verif/go && go build -o $W/srcfacts ./cmd/srcfacts) || exit 2
